@@ -447,7 +447,8 @@ func (s *sharedEntryAttributes) shouldDelete() bool {
 	shouldDelete := false
 
 	// iterate through the active childs
-	for _, c := range s.filterActiveChoiceCaseChilds() {
+	activeChilds := s.filterActiveChoiceCaseChilds()
+	for _, c := range activeChilds {
 		// check if the child can be deleted
 		canDelete = c.canDelete()
 		// if it can explicitly not be deleted, then the result is clear, we should not delete
@@ -458,6 +459,12 @@ func (s *sharedEntryAttributes) shouldDelete() bool {
 		// requires deletion only if there is a contributing shouldDelete() == true then we must issue
 		// a real delete
 		shouldDelete = shouldDelete || c.shouldDelete()
+	}
+
+	// a presence container that loses its own value must remain, if childs remain that cannot be
+	// deleted (e.g. owned by another intent), a delete would wipe these as well.
+	if leafVariantshouldDelete && len(activeChilds) > 0 && !canDelete {
+		leafVariantshouldDelete = false
 	}
 
 	// the overall result is
